@@ -17,7 +17,7 @@ ASSUMPTIONS = ["destinations keep a margin >= 0.5 mm from region borders (the pr
                "G92 re-basing is applied only outside an open episode (C03's carve-out); it is explored in the "
                "dedicated c08-g92 scenario (known finding D16)"]
 
-PATH = [("TRAVEL", "O2"), ("TRAVEL", "I1"), ("TRAVEL", "O1"), ("TRAVEL", "Org"), ("XONLY", "I1"), ("YONLY", "I1"), ("PRINT", "I2"), ("PRINT", "O2"), ("TRAVEL", "H"),
+PATH = [("TRAVEL", "O2"), ("TRAVEL", "I1"), ("TRAVEL", "O1"), ("TRAVEL", "F3"), ("TRAVEL", "Org"), ("XONLY", "I1"), ("YONLY", "I1"), ("PRINT", "I2"), ("PRINT", "O2"), ("TRAVEL", "H"),
         ("TRAVELZ", "I1", 2), ("ZMOVE", 2), ("ZMOVE", 1), ("RETRACT",), ("RECOVER",), ("SWITCH",)]
 # layer-sized Z steps for the unit re-encoding (0.4 / 0.6 mm are the same to two decimals in inches)
 PATH_INCH = [e for e in PATH if e not in (("ZMOVE", 2), ("TRAVEL", "Org"), ("YONLY", "I1"))] + [("ZMOVE", "0.4"), ("ZMOVE", "0.6")]
